@@ -19,6 +19,34 @@ func init() {
 }
 
 func c12(c *Ctx) {
+	{
+		// a guard set belongs to a lock owner for the life of the database object: nobody removes it
+		n := 0
+		var where []string
+		for _, f := range c.P.SrcFuncs() {
+			if !c.inScope(f, []string{"litefs"}) {
+				continue
+			}
+			for _, b := range f.Blocks {
+				for _, in := range b.Instrs {
+					call, ok := in.(*ssa.Call)
+					if !ok {
+						continue
+					}
+					if bi, ok := call.Call.Value.(*ssa.Builtin); ok && bi.Name() == "delete" && len(call.Call.Args) == 2 && strings.HasSuffix(c.P.Render(call.Call.Args[0]), ".guardSets.m") {
+						n++
+						where = append(where, c.where(in))
+					}
+				}
+			}
+		}
+		d := "no guard set is ever removed from DB.guardSets.m"
+		if n > 0 {
+			c.fail("owners/guardset-never-removed", "K5 who-may-write", d, "the set also holds the owner's SHM guards: once it is gone their release finds nothing to unlock and the locks stay held for ever, while a fresh empty set is handed out for the same owner", "removed at "+strings.Join(where, ", "), n)
+		} else {
+			c.ok("owners/guardset-never-removed", "K5 who-may-write", d, 1)
+		}
+	}
 	p := c.P
 	c.rwAbstract("step")
 
